@@ -49,6 +49,18 @@ CHECKS = {
         design_ref="DESIGN.md 5 C33",
         note=NOTE_COMMON + " Deviations are computed in float64 by the harness and logged in parts per billion; tolerance 1e-6.",
     ),
+    "C35": dict(
+        text=("TLC explores AxesModel: all histories (depth 3) of index expressions (Python slice semantics with None/negative "
+              "parts and steps, integers, integer lists, boolean masks) and concatenations over an ordinal axis, checks the "
+              "sequence algebra (positions in range, reverse twice, even/odd partition) and emits the histories; they are "
+              "replayed on every ordinal axis class of abtem.core.axes with python and numpy index objects; dict round trips "
+              "are run for every axis class found by introspection (each single-field deviation + random combinations, both "
+              "to_dict/from_dict and axis_to_dict/axis_from_dict) and LinearAxis coordinates for a rational lattice; "
+              "AxesTrace.tla decides sliced/concatenated values, per-field round-trip equality and offset + i x sampling."),
+        technique="TLA+ sequence-semantics model (TLC) + spec-generated index histories replayed on the real axis classes + TLC trace validation",
+        design_ref="DESIGN.md 5 C35",
+        note=NOTE_COMMON + " Field values are compared through an interning that identifies equal numbers and ndarray/tuple but distinguishes tuple from list.",
+    ),
 }
 
 NOT_APPLICABLE = {
